@@ -75,8 +75,21 @@ class FakeSindex:
 class FakeLeftGeom:
     _pysym_model = True
 
-    def __init__(self, J, calls):
-        self.J, self.calls = J, calls
+    def __init__(self, J, calls, lb=None, lnan=None):
+        self.J, self.calls, self.lb, self.lnan = J, calls, lb or [], lnan or []
+
+    @property
+    def total_bounds(self):
+        """C13 contract: NaN-skipping extent of the left rows, NaN when no row has defined bounds"""
+        out = []
+        for j in range(4):
+            val, vnan = z3.RealVal(0), z3.BoolVal(True)
+            for row, rn in zip(self.lb, self.lnan):
+                better = row[j] < val if j < 2 else row[j] > val
+                val = z3.If(rn, val, z3.If(z3.Or(vnan, better), row[j], val))
+                vnan = z3.And(vnan, rn)
+            out.append(Num(val, z3.simplify(vnan)))
+        return tuple(out)
 
     def intersects(self, shape, inds=None):
         if shape is None:          # what PointArray.intersects does with an unsupported operand (read from the real code by the replay)
@@ -147,7 +160,7 @@ def explore(nl, nr, order=None, timeout=600, max_paths=50000):
             for j in range(4):
                 rbounds[i, j] = Num(rb[i][j], rnan[i])
         fpd = FakePd()
-        left_df = Obj(geometry=Obj(sindex=FakeSindex(it, lbn, order), array=FakeLeftGeom(J, calls)), n=nl)
+        left_df = Obj(geometry=Obj(sindex=FakeSindex(it, lbn, order), array=FakeLeftGeom(J, calls, lb, lnan)), n=nl)
         right_df = Obj(geometry=Obj(array=FakeRightGeom(it, rmiss), bounds=Obj(values=rbounds)), n=nr)
         Obj.__len__ = lambda self: self.n
         fr = Frame(True, f)
